@@ -9,7 +9,7 @@ for d in seeded/${1:-}*/; do
   if ! git -C /repo diff --quiet; then echo "/repo is dirty; abort"; exit 2; fi
   if ! python3 -c "import json,sys;sys.exit(0 if '$prop' in json.load(open('/verif/props.json')) else 1)"; then echo "$n: property $prop has no check"; continue; fi
   git -C /repo apply /verif/${d}patch.diff || { echo "$n: patch does not apply"; continue; }
-  out=$(./check $prop quick 2>&1); rc=$?
+  out=$(GOCV_EVIDENCE_DIR=/tmp/gocv_seed_evidence ./check $prop quick 2>&1); rc=$?
   git -C /repo checkout -- .
   v=$(echo "$out" | grep -c '^VIOLATION')
   echo "$n: property=$prop exit=$rc violations=$v $(echo "$out" | grep '^VIOLATION' | sed 's/.*replay=\/verif\/replays\///' | tr '\n' ' ')"
